@@ -201,7 +201,80 @@ func H_conc_duplicates() {
 }
 `, dupText)
 	fam.Instances = append(fam.Instances, Instance{Func: "H_conc_duplicates", Stratum: "duplicates", Desc: "conc block with textually identical members", Text: dupText, Expect: []string{"executed"}})
-	fam.Files[repoDir+"/zz_verif/"+pkg+"/h.go"] = strings.Replace(stdHead(pkg), "import (", "import (\n\t\"strconv\"", 1) + b.String()
+	argText := "rule \"r\" begin\n conc {\n  use(tick(0), missing)\n  obj.Use(tick(1), missing)\n  obj.Inner.Use(tick(2), missing)\n  a = use(tick(3), missing)\n }\n ev(\"after\")\nend\n"
+	overlapText := "rule \"r\" begin\n gate()\n conc {\n  first()\n  second()\n }\n ev(\"after\")\nend\n"
+	fmt.Fprintf(&b, `
+func (o *Obj) Use(a, b int64) int64   { return a + b }
+func (in *Inner) Use(a, b int64) int64 { return a + b }
+
+// a member whose later argument is an unknown name: the earlier, side-effecting argument is evaluated once
+func H_conc_faulty_argument() {
+	dc := newDC(nil)
+	dc.Add("obj", &Obj{Inner: &Inner{}})
+	dc.Add("use", func(a, b int64) int64 { return a + b })
+	dc.Add("tick", func(i int64) int64 {
+		vnd.Event(mname(i, ".tick"))
+		return i
+	})
+	rb := buildText(dc, %q)
+	eng := engine.NewGengine()
+	err := eng.Execute(rb, true)
+	vnd.Event("ret")
+	vnd.Quiesce()
+	vnd.Reach("executed")
+	vnd.RequireJoined("ret")
+	vnd.StopIfViolated()
+	for i := int64(0); i < 4; i++ {
+		vnd.Assert(vnd.Count(mname(i, ".tick")) == 1, "every statement of the block, and every argument in it, is evaluated exactly once")
+	}
+	vnd.Assert(err != nil, "the block fails iff a member fails")
+	vnd.Assert(vnd.Count("after") == 0, "the next statement runs iff the block succeeded")
+}
+
+// two executions of the same block overlap (the same rule twice in a DAG layer): the one whose member failed
+// still fails although the other one entered the block after that failure was recorded
+func H_conc_overlapping_evaluations() {
+	var mu sync.Mutex
+	gates, firsts := 0, 0
+	aFailed, bEntered := new(sync.WaitGroup), new(sync.WaitGroup)
+	aFailed.Add(1)
+	bEntered.Add(1)
+	dc := newDC(nil)
+	dc.Add("gate", func() {
+		mu.Lock()
+		gates++
+		k := gates
+		mu.Unlock()
+		if k == 2 {
+			aFailed.Wait() // the second execution enters the block only after the first one's member has failed
+		}
+	})
+	dc.Add("first", func() {
+		mu.Lock()
+		firsts++
+		k := firsts
+		mu.Unlock()
+		if k == 1 {
+			vnd.Event("boom")
+			defer aFailed.Done()
+			panic("boom")
+		}
+		bEntered.Done()
+	})
+	dc.Add("second", func() { bEntered.Wait() })
+	rb := buildText(dc, %q)
+	eng := engine.NewGengine()
+	err := eng.ExecuteDAGModel(rb, [][]string{{"r", "r"}})
+	vnd.Event("ret")
+	vnd.Quiesce()
+	vnd.Reach("executed")
+	vnd.Assert(err != nil, "the block fails iff a member fails")
+	vnd.Assert(vnd.Count("after") == 1, "the next statement runs iff the block succeeded")
+}
+`, argText, overlapText)
+	fam.Instances = append(fam.Instances, Instance{Func: "H_conc_faulty_argument", Stratum: "faulty-argument", Desc: "members whose second argument is an unknown name", Text: argText, Expect: []string{"executed"}},
+		Instance{Func: "H_conc_overlapping_evaluations", Stratum: "overlap", Desc: "two overlapping evaluations of one conc block", Text: overlapText, Expect: []string{"executed"}, Nondet: true})
+	fam.Files[repoDir+"/zz_verif/"+pkg+"/h.go"] = strings.Replace(stdHead(pkg), "import (", "import (\n\t\"strconv\"\n\t\"sync\"", 1) + b.String()
 	fam.Files[repoDir+"/zz_verif/"+pkg+"/lib.go"] = libFile(pkg)
 	fam.TestFile = repoDir + "/zz_verif/" + pkg + "/zz_replay_test.go"
 	fam.TestSrc = testFile(pkg, fam.Instances)
